@@ -21,6 +21,22 @@ def main():
         mod = importlib.import_module(f"props.{a.pid}")
         if a.replay:
             rec = json.load(open(a.replay))
+            rec.setdefault("_path", a.replay)
+            if rec.get("obligation") and not rec.get("failing_input_found") and hasattr(mod, "deductive"):
+                # a refuted obligation for which the solver gave no input that replays natively (no-failing-input-found):
+                # the replay file names the obligation and carries the solver's output; replaying = re-verifying that
+                # obligation from the CURRENT source of /repo
+                name = rec["obligation"].rsplit(".", 1)[0]
+                print(f"replay {a.pid}: obligation {rec['obligation']} has no native failing input; solver output recorded in the file:")
+                print("  " + str(rec.get("solver_output"))[:600].replace("\n", "\n  "))
+                c = Ctx(a.pid, a.tier, seed)
+                mod.deductive(c)
+                hits = [v for v in c.violations if str(v.get("obligation") or "").rsplit(".", 1)[0] == name]
+                print(f"replay {a.pid}: re-verified on the current tree: obligation {name} " + ("is refuted again" if hits else "is discharged"))
+                if hits:
+                    print(f"VIOLATION property={a.pid} replay={a.replay} no-failing-input-found")
+                    sys.exit(1)
+                sys.exit(0)
             rc = mod.replay(rec)
             sys.exit(rc)
         ctx = Ctx(a.pid, a.tier, seed)
